@@ -28,6 +28,10 @@ EXTRA = [
     "Roe v. Wade, 410 U.S. 113, and Lochner v. New York, 198 U.S. 45 (1905)",
     "Foo v. Bar, 1 U.S. 1 (1999) (holding x (quoting y)) (second) and then (later) text",
     "See Foo v. Bar, 1 U.S. 1, 5 (1999) (holding x). Other (text) here.",
+    # numbers longer than the matcher window (MAX_MATCH_CHARS = 300) in every number position of a short / id / supra form
+    "Foo, 1 U.S. at " + "7" * 400 + " because", "1 T.C. at " + "7" * 5000, "Foo, 1 U.S., at " + "7" * 301 + ", " + "8" * 400 + " (holding x)",
+    "Id. at " + "3" * 400 + ".", "Bar, supra, at " + "4" * 400 + " (quoting y)", "1 U.S. 1, " + "5" * 400 + " (1999)",
+    "Foo v. Bar, 1 U.S. " + "6" * 400 + " (1999). Id. at 7.",
 ]
 
 
@@ -42,6 +46,9 @@ def main(pid):
     r = run_tlc("MC_Extract", "MC_Extract_thorough.cfg" if thorough else "MC_Extract_quick.cfg", timeout=3000)
     tlc_must_pass(r, "MC_Extract")
     ev.add_tlc("MC_Extract", r, "scaled constants BACKWARD_SEEK=3, word lists <= 5")
+    r = run_tlc("MC_Extract", "MC_Extract_longpage.cfg", timeout=900)
+    tlc_must_pass(r, "MC_Extract_longpage")
+    ev.add_tlc("MC_Extract_longpage", r, "MAX_MATCH_CHARS scaled to 1: the window is cut inside the page of a short citation")
     docs = list(gendocs.pairs())
     if not thorough:
         rnd.shuffle(docs)
